@@ -6,7 +6,9 @@
 mod docs;
 mod enc;
 mod gen;
+mod paths;
 mod render;
+mod textual;
 mod run;
 mod topics;
 
